@@ -96,6 +96,11 @@ fn c06(rng: &mut Rng, tier: &str, idx: usize) -> Case {
         // always: a sample of 86 .. 90 terms from more than 86 858 (C(N, n) leaves the f64 range)
         c.op(format!("enrichbig {} {} {} {}", *rng.pick(&[87_000u32, 100_000, 120_000, 400_000]), *rng.pick(&[3u32, 6, 40]), rng.range(86, 90), rng.range(1, 3)));
         c.stat("enrich_ops_huge_population", 1);
+        // nearly everything annotated and nearly everything sampled: the products k*N and n*K lie
+        // beyond 2^32 (the fold enrichment is a quotient of quotients, not of integer products)
+        let (bn, bk, nn, kk) = *rng.pick(&[(70_002u32, 66_002u32, 68_252u32, 64_352u32), (70_000, 69_000, 69_500, 68_510), (66_000, 65_600, 65_700, 65_310)]);
+        c.op(format!("enrichbig {bn} {bk} {nn} {kk}"));
+        c.stat("enrich_ops_products_beyond_u32", 1);
         for _ in 0..if tier == "quick" { 2 } else { 4 } {
             let big_n = *rng.pick(&[50_000u32, 87_000, 100_000, 120_000, 200_000, 400_000]);
             let n = *rng.pick(&[10u32, 60, 86, 88, 90, 91, 120, 300, 1000]);
@@ -136,6 +141,29 @@ fn c06(rng: &mut Rng, tier: &str, idx: usize) -> Case {
             c.op(format!("enrichbig {big_n} {big_k} {n} {k}"));
             c.stat("enrich_ops_long_tail", 1);
             c.stat(&format!("first_term_log_level_{}", -target as i64), 1);
+        }
+        // right of the mode, still in the lower half of the support (a tail of more than 64 terms
+        // that is LONGER than the head below it): small tail probabilities of 1e-7 ... 1e-130, which
+        // a complement `1 - head` cannot deliver
+        for (bn, bk, nn) in [(1000u32, 150u32, 150u32), (2000, 300, 200), (5000, 400, 400)] {
+            let lo = (nn + bk).saturating_sub(bn);
+            let hi = bk.min(nn);
+            let mode = ((u64::from(nn) + 1) * (u64::from(bk) + 1) / (u64::from(bn) + 2)) as u32;
+            for target in [-15.0f64, -35.0, -80.0, -300.0] {
+                let mut pick = None;
+                for k in mode.max(lo)..=hi {
+                    if ln_pmf(bn, bk, nn, k) <= target {
+                        pick = Some(k);
+                        break;
+                    }
+                }
+                if let Some(k) = pick {
+                    if hi - k + 1 > 64 && k - lo < hi - k + 1 {
+                        c.op(format!("enrichbig {bn} {bk} {nn} {k}"));
+                        c.stat("enrich_ops_right_flank_long_tail", 1);
+                    }
+                }
+            }
         }
         c.nontrivial = true;
         return c;
@@ -457,6 +485,32 @@ fn c17(rng: &mut Rng, _tier: &str, _idx: usize) -> Case {
     let mut c = Case::new("linkage");
     // a flat ontology holding the terms of all runs of this case
     let m = rng.range(2, 60) as usize;
+    if rng.chance(1, 3) {
+        // binary route: some of the clustered terms are flagged obsolete / replaced (a set is
+        // clustered with the terms it has, whatever their flags)
+        let tids_b = gen_ids(rng, m, &[1, 118]);
+        let mut f = Facts::default();
+        f.terms.push((1, "All".to_string()));
+        f.terms.push((118, "Phenotypic abnormality".to_string()));
+        f.edges.push((1, 118));
+        for (i, t) in tids_b.iter().enumerate() {
+            f.terms.push((*t, "t".to_string()));
+            if rng.chance(1, 2) {
+                f.edges.push((if i == 0 || rng.chance(1, 3) { 118 } else { tids_b[rng.below(i as u64) as usize] }, *t));
+            }
+        }
+        f.version = (2024, 1, 1);
+        let mut flags: Flags = vec![];
+        for t in &tids_b {
+            if rng.chance(1, 3) {
+                flags.push((*t, true, if rng.chance(1, 2) { Some(*rng.pick(&tids_b)) } else { None }));
+            }
+        }
+        c.stat("obsolete_or_replaced_terms", flags.len() as u64);
+        c.stat("binary_route_ontologies", 1);
+        facts_to_fops(rng, &f, &flags, 3, 0, true, &mut c);
+        return c17_runs(rng, c, tids_b);
+    }
     let tids = gen_ids(rng, m, &[]);
     c.op("new".to_string());
     for t in &tids {
@@ -476,6 +530,12 @@ fn c17(rng: &mut Rng, _tier: &str, _idx: usize) -> Case {
     c.op("connect".to_string());
     c.op("ic".to_string());
     c.op("build min 0".to_string());
+    c17_runs(rng, c, tids)
+}
+
+/// the clustering runs of a C17 case on the ontology in slot 0
+fn c17_runs(rng: &mut Rng, mut c: Case, tids: Vec<u32>) -> Case {
+    let m = tids.len();
     let methods = ["union", "single", "complete", "average"];
     let mut nontrivial = false;
     let runs = rng.range(3, 6);
